@@ -332,6 +332,7 @@ pub fn run(seed: u64, count: usize, maxn: usize, out: &mut impl Write) {
         let r = catch(std::panic::AssertUnwindSafe(move || run_impl(&gt2, &c2)));
         writeln!(out, "{}", case_line("w0", "witness", &gt, &c, &r)).unwrap();
     }
+    let mut unexpected_caps = 0usize;
     for i in 0..count {
         let n = match rng.below(10) {
             0 => rng.range(0, 2),
@@ -341,9 +342,17 @@ pub fn run(seed: u64, count: usize, maxn: usize, out: &mut impl Write) {
         };
         let (g, shape) = gen_pr_graph(&mut rng, n);
         let gt = transpose(&g);
-        let c = gen_conf(&mut rng, n, num_arcs(&gt));
+        let mut c = gen_conf(&mut rng, n, num_arcs(&gt));
+        // after a dozen runs that hit the iteration cap outside the known class (alpha >= 0.99
+        // with threshold <= 1e-12) the cap of the remaining cases is lowered: a broken update
+        // rule that never converges must not make the run take hours (every capped run is
+        // still reported as such; no legitimate run needs more than about 2800 iterations)
+        if unexpected_caps >= 12 { c.cap = c.cap.min(5_000); }
         let (gt2, c2) = (gt.clone(), c.clone());
         let r = catch(std::panic::AssertUnwindSafe(move || run_impl(&gt2, &c2)));
+        if let Ok(o) = &r {
+            if o.iters >= c.cap && !(c.an * 100 >= 99 * c.ad && c.epsexp >= 12) { unexpected_caps += 1; }
+        }
         writeln!(out, "{}", case_line(&format!("p{i}"), shape, &gt, &c, &r)).unwrap();
         if n > 0 && (i % 10 == 3 || i % 200 == 7) {
             // the same configuration through the command-line entry point: mostly with the
